@@ -238,6 +238,29 @@ DurExtClause(ev) ==
   ELSE IF ev.bl # ID!IBool(ev.a) THEN "ext:bool"
   ELSE "ok"
 
+\* C11: Duration(..., standardize=True) carries seconds -> minutes -> hours -> days: another spelling of the SAME duration (a = the
+\* duration built without the option, s = with it)
+DurStdClause(ev) ==
+  IF ~ev.ok THEN "raised-" \o ev.cls
+  ELSE IF ~DurSame(ev.s, ev.a) THEN "standardize-changed-the-duration"
+  ELSE IF ~ev.eq THEN "standardized-spelling-not-equal"
+  ELSE IF ~ev.hs THEN "standardized-spelling-hashes-differently"
+  ELSE IF ev.lt \/ ev.gt THEN "standardized-spelling-strictly-ordered"
+  ELSE "ok"
+\* C11 beyond what a double holds: two all-integer durations whose exact lengths differ by ev.delta seconds (the common base, far
+\* beyond 2^53 s, is not needed to state the verdicts - and would not fit TLC's integers): == iff delta = 0, order by the sign
+DurBigClause(ev) ==
+  IF ~ev.ok THEN "raised-" \o ev.cls
+  ELSE IF ev.cmp[1] # (ev.delta = 0) THEN "==-on-huge-integer-durations"
+  ELSE IF ev.cmp[2] # (ev.delta # 0) THEN "!=-on-huge-integer-durations"
+  ELSE IF ev.cmp[3] # (ev.delta > 0) THEN "<-on-huge-integer-durations"
+  ELSE IF ev.cmp[4] # (ev.delta >= 0) THEN "<=-on-huge-integer-durations"
+  ELSE IF ev.cmp[5] # (ev.delta < 0) THEN ">-on-huge-integer-durations"
+  ELSE IF ev.cmp[6] # (ev.delta <= 0) THEN ">=-on-huge-integer-durations"
+  ELSE IF ev.delta = 0 /\ ~ev.hs THEN "equal-huge-durations-hash-differently"
+  ELSE IF ev.diff # ev.delta THEN "difference-of-huge-integer-durations"
+  ELSE "ok"
+
 \* ---------------------------------------------------------------------- C12 / C13 / C14: recurrences
 \* inp = [fmt, n (0 = unbounded), a (anchor: the given start, or the given end for notation 4), s (second point,
 \*        notation 1), d (interval, notations 3 and 4), r (projection of the constructed object)]
@@ -806,6 +829,8 @@ Clause(ev) ==
     [] ev.op = "ParseTrunc" -> ParseTruncClause(ev)
     [] ev.op = "DurOp1"   -> DurOp1Clause(ev)
     [] ev.op = "DurExt"   -> DurExtClause(ev)
+    [] ev.op = "DurStd"   -> DurStdClause(ev)
+    [] ev.op = "DurBig"   -> DurBigClause(ev)
     [] ev.op = "Props"    -> PropsClause(ev)
     [] ev.op = "Cmp1"     -> Cmp1Clause(mode, ev)
     [] ev.op = "SuiteEnd" -> "ok"
